@@ -40,15 +40,27 @@ def run():
     zv = vlib.build_zv()
     thorough = vlib.tier() == "thorough"
     env = _devs_env()
-    # design audit of the specification
+    # design audit of the specification; runs beside the harness and the trace validation
+    # (both have long single-threaded phases) and is joined before the verdict
     if thorough:
         runs = [dict(module="MCPratt.tla", cfg="MCPratt.cfg", timeout=1700),
                 dict(module="MCPratt.tla", cfg="MCPrattStmts.cfg", timeout=1700)]
     else:
         runs = [dict(module="MCPratt.tla", cfg="MCPrattQuick.cfg"),
                 dict(module="MCPratt.tla", cfg="MCPrattStmtsQuick.cfg")]
+    runs.append(dict(module="MCPrattForms.tla", cfg="MCPrattForms.cfg"))
     runs.append(dict(module="MCPratt.tla", cfg="MCPrattPinned.cfg", expect="violation"))
-    flow.mc_runs(out, runs)
+    vlib.specdir()
+    audit = flow.Outcome(PROP)
+    abox = {}
+
+    def _audit():
+        try:
+            flow.mc_runs(audit, runs)
+        except BaseException as e:
+            abox["err"] = e
+    at = threading.Thread(target=_audit)
+    at.start()
     # recorded executions, in chunks: the harness produces chunk k+1 while TLC validates chunk k
     nchunk = 24 if thorough else 1
     stats = {"cases": 0, "fam": {}, "mode": {}, "texts": set(), "ops": set(), "maxtok": 0, "err_both": 0, "cmp": 0}
@@ -60,6 +72,7 @@ def run():
     for k in range(nchunk):
         t.join()
         if "err" in box:
+            at.join()
             raise box["err"]
         nxt = None
         if k + 1 < nchunk:
@@ -72,6 +85,7 @@ def run():
         except BaseException:
             if nxt is not None:
                 nxt.join()
+            at.join()
             raise
         for c in cases.values():
             stats["cases"] += 1
@@ -98,6 +112,12 @@ def run():
             pass
         if nxt is not None:
             t = nxt
+    at.join()
+    if "err" in abox:
+        raise abox["err"]
+    out.mc_runs = audit.mc_runs
+    out.states += audit.states
+    out.transitions += audit.transitions
     cov = {
         "programs": stats["cases"],
         "distinct_program_texts": len(stats["texts"]),
